@@ -210,7 +210,7 @@ func c09Document(c *Ctx, V *ssa.Function, kind string, sigs map[string][]string)
 	}
 	add("nil-document", has("NE("+doc+",nil)"))
 	add("empty-version", has("NE("+doc+`.Version,const:"")`))
-	add("unsupported-version", has("T(call:ngo/internal/slices.Contains(global:ngo/verifier/trustpolicy.supported", ","+doc+".Version))"))
+	add("unsupported-version", has("T(call:ngo/internal/slices.Contains(global:ngo/verifier/trustpolicy.", ","+doc+".Version))"))
 	add("no-statements", has("NE(len("+doc+".TrustPolicies),const:0)") || has("GT(len("+doc+".TrustPolicies),const:0)") || has("GE(len("+doc+".TrustPolicies),const:1)"))
 	loop := findLoop(V, func(d string) bool { return d == doc+".TrustPolicies" })
 	if loop == nil {
@@ -852,7 +852,7 @@ func c09Forced(c *Ctx) {
 	for _, fn := range w.FuncsOfPkg("verifier") {
 		for _, b := range fn.Blocks {
 			for _, in := range b.Instrs {
-				if al, ok := in.(*ssa.Alloc); ok && namedOf(al.Type()) == "ngo/verifier.verifier" {
+				if al, ok := in.(*ssa.Alloc); ok && namedOf(al.Type()) == w.verifierTypeName() {
 					n++
 					ctor = fn
 				}
@@ -886,7 +886,7 @@ func c09Forced(c *Ctx) {
 		for _, b := range ctor.Blocks {
 			for _, in := range b.Instrs {
 				if st, ok := in.(*ssa.Store); ok {
-					if fa, ok := st.Addr.(*ssa.FieldAddr); ok && namedOf(fa.X.Type()) == "ngo/verifier.verifier" && desc(st.Val) == docD {
+					if fa, ok := st.Addr.(*ssa.FieldAddr); ok && namedOf(fa.X.Type()) == w.verifierTypeName() && desc(st.Val) == docD {
 						stored = true
 					}
 				}
